@@ -887,10 +887,24 @@ func (p *printer) share(roots []*Term) {
 	}
 }
 
-const smtPrelude = `(declare-datatypes ((Ref 0)) (((nil) (obj (oid Int)) (emb (eparent Ref) (efld Int)) (elem (lparent Ref) (lidx Int)))))
-(define-fun rootid1 ((r Ref)) Int (ite ((_ is obj) r) (oid r) (- 1)))
-(define-fun parentof ((r Ref)) Ref (ite ((_ is emb) r) (eparent r) (ite ((_ is elem) r) (lparent r) r)))
-(define-fun rootid ((r Ref)) Int (ite ((_ is obj) r) (oid r) (ite ((_ is nil) r) (- 1) (rootid1 (parentof (parentof (parentof (parentof r))))))))
+const smtPrelude = `(declare-sort Ref 0)
+(declare-fun nil () Ref)
+(declare-fun obj (Int) Ref)
+(declare-fun emb (Ref Int) Ref)
+(declare-fun elem (Ref Int) Ref)
+(declare-fun kind (Ref) Int)
+(declare-fun oid (Ref) Int)
+(declare-fun eparent (Ref) Ref)
+(declare-fun efld (Ref) Int)
+(declare-fun lparent (Ref) Ref)
+(declare-fun lidx (Ref) Int)
+(declare-fun rootid (Ref) Int)
+(declare-fun parentof (Ref) Ref)
+(define-fun isemb ((r Ref)) Bool (= (kind r) 2))
+(assert (and (= (kind nil) 0) (= (rootid nil) (- 1)) (= (parentof nil) nil)))
+(assert (forall ((k Int)) (! (and (= (kind (obj k)) 1) (= (oid (obj k)) k) (= (rootid (obj k)) k) (= (parentof (obj k)) (obj k))) :pattern ((obj k)))))
+(assert (forall ((p Ref) (f Int)) (! (and (= (kind (emb p f)) 2) (= (eparent (emb p f)) p) (= (efld (emb p f)) f) (= (rootid (emb p f)) (rootid p)) (= (parentof (emb p f)) p)) :pattern ((emb p f)))))
+(assert (forall ((p Ref) (i Int)) (! (and (= (kind (elem p i)) 3) (= (lparent (elem p i)) p) (= (lidx (elem p i)) i) (= (rootid (elem p i)) (rootid p)) (= (parentof (elem p i)) p)) :pattern ((elem p i)))))
 `
 
 // Query renders assumptions and a negated goal as a complete SMT-LIB script.
